@@ -314,6 +314,7 @@ pub fn build(g: &GraphSpec, ctx: &mut CaseCtx) -> Result<(GraphEngine, Model), F
         match mu {
             Mutn::DelEdge(i) => {
                 if m.edges.is_empty() {
+                    ctx.label("build: mutation skipped (nothing to delete/update)");
                     continue;
                 }
                 let k = pick(*i, m.edges.len());
@@ -326,6 +327,7 @@ pub fn build(g: &GraphSpec, ctx: &mut CaseCtx) -> Result<(GraphEngine, Model), F
             },
             Mutn::DelNode(i) => {
                 if m.nodes.len() <= 1 {
+                    ctx.label("build: mutation skipped (nothing to delete/update)");
                     continue;
                 }
                 let k = pick(*i, m.nodes.len());
@@ -339,6 +341,7 @@ pub fn build(g: &GraphSpec, ctx: &mut CaseCtx) -> Result<(GraphEngine, Model), F
             },
             Mutn::SetW(i, w) => {
                 if m.edges.is_empty() {
+                    ctx.label("build: mutation skipped (nothing to delete/update)");
                     continue;
                 }
                 let k = pick(*i, m.edges.len());
